@@ -65,16 +65,21 @@ fn callback() {
 
 #[inline]
 fn monitor(kind: u64, k: &SimKey) {
+    monitor_raw(kind, k.id, k.exp, k.key)
+}
+
+#[inline]
+fn monitor_raw(kind: u64, id: u32, exp: i32, key: i32) {
     CTX.with(|c| {
         if c.mon_on.get() {
             c.mon_calls.set(c.mon_calls.get().wrapping_add(1));
-            if k.id == c.mon_probe.get() && k.id != 0 {
+            if id == c.mon_probe.get() && id != 0 {
                 return;
             }
-            if (k.id == 0 || k.exp <= c.mon_time.get()) && c.mon_viol.get() == 0 {
-                c.mon_viol.set((kind << 60) | (k.id as u64 + 1));
-                c.mon_viol_key.set(k.key);
-                c.mon_viol_exp.set(k.exp);
+            if (id == 0 || exp <= c.mon_time.get()) && c.mon_viol.get() == 0 {
+                c.mon_viol.set((kind << 60) | (id as u64 + 1));
+                c.mon_viol_key.set(key);
+                c.mon_viol_exp.set(exp);
             }
         }
     });
@@ -190,6 +195,8 @@ pub struct IKey(pub i32);
 
 impl PartialEq for IKey {
     fn eq(&self, o: &Self) -> bool {
+        // `==` is the caller's comparison code as much as `cmp` is
+        callback();
         self.0 == o.0
     }
 }
@@ -220,6 +227,9 @@ pub struct SimKey {
 
 impl PartialEq for SimKey {
     fn eq(&self, o: &Self) -> bool {
+        callback();
+        monitor(CB_CMP, self);
+        monitor(CB_CMP, o);
         self.key == o.key
     }
 }
@@ -242,6 +252,49 @@ impl Ord for SimKey {
 impl ExpiredKey<i32> for SimKey {
     #[inline]
     fn expiration(&self) -> i32 {
+        callback();
+        self.exp
+    }
+}
+
+/// Key of the expiring-key world in its *narrow* instantiation
+/// (`KeyExpTree<NKey, u8, u32>`): another key size and alignment, a clock type
+/// whose maximum (255) is reached in every other run, 32-bit values. Same
+/// instrumentation as `SimKey`.
+#[derive(Clone, Copy, Debug)]
+pub struct NKey {
+    pub key: i64,
+    pub exp: u8,
+    pub id: u32,
+}
+
+impl PartialEq for NKey {
+    fn eq(&self, o: &Self) -> bool {
+        callback();
+        monitor_raw(CB_CMP, self.id, self.exp as i32, self.key as i32);
+        monitor_raw(CB_CMP, o.id, o.exp as i32, o.key as i32);
+        self.key == o.key
+    }
+}
+impl Eq for NKey {}
+impl PartialOrd for NKey {
+    #[inline]
+    fn partial_cmp(&self, o: &Self) -> Option<Ordering> {
+        Some(self.cmp(o))
+    }
+}
+impl Ord for NKey {
+    #[inline]
+    fn cmp(&self, o: &Self) -> Ordering {
+        callback();
+        monitor_raw(CB_CMP, self.id, self.exp as i32, self.key as i32);
+        monitor_raw(CB_CMP, o.id, o.exp as i32, o.key as i32);
+        self.key.cmp(&o.key)
+    }
+}
+impl ExpiredKey<u8> for NKey {
+    #[inline]
+    fn expiration(&self) -> u8 {
         callback();
         self.exp
     }
